@@ -103,6 +103,7 @@ type ContractSet struct {
 	Finals    []string
 	Standins  []Standin
 	Locks     []LockDiscipline
+	Unopaque  []Unopaque
 	Files     []string
 	Errors    []string
 }
@@ -143,6 +144,13 @@ func (cs *ContractSet) loadContractFile(path string, pkgPath string) error {
 	}
 	cs.Files = append(cs.Files, path)
 	return cs.loadContractText(path, pkgPath, string(data))
+}
+
+// Unopaque: for the listed properties, a named type that is normally an opaque reference is
+// given its real (underlying) shape.
+type Unopaque struct {
+	Type  string
+	Props []string
 }
 
 // LockDiscipline: every method of Type gets a thin, synthesized lock-discipline contract
@@ -319,6 +327,16 @@ func (cs *ContractSet) loadContractText(path string, pkgPath string, text string
 			cs.ObjInvs[oi.Type] = append(cs.ObjInvs[oi.Type], oi)
 			cur = nil
 			lastText = &oi.Text
+			continue
+		case "unopaque":
+			// unopaque <qualified type> props Cxx[,Cyy]
+			if len(fields) != 4 || fields[2] != "props" {
+				errf(i, "unopaque type props Cxx")
+				continue
+			}
+			cs.Unopaque = append(cs.Unopaque, Unopaque{Type: fields[1], Props: splitProps(fields[3])})
+			cur = nil
+			lastText = nil
 			continue
 		case "lockdiscipline":
 			// lockdiscipline pkg.Type mutexField props C35 [held: m1, m2] [skip: m3, m4]
